@@ -364,6 +364,13 @@ class Track:
                     pass
                 event.action(**event.args)
             except StopIteration:
+                #------------------------------------------------------------------------
+                # The callback asks for this track to end: draw no further events from
+                # its stream, so that a track which is retained after finishing
+                # (remove_when_done=False) or which still has a note sounding does not
+                # carry on playing.
+                #------------------------------------------------------------------------
+                self.event_stream = None
                 raise StopIteration()
             except Exception as e:
                 print("Exception when handling scheduled action: %s" % e)
